@@ -69,6 +69,7 @@ type op struct {
 	Fails  []int    `json:"fails"`
 	Vetoes []int    `json:"vetoes"`
 	Fll    []string `json:"fll"`
+	Tie    []int    `json:"tie"`
 }
 
 type script struct {
@@ -339,6 +340,7 @@ func runScript(tr *vio.Trace, h int, sc script) {
 			o.Vetoes = []int{}
 		}
 		o.Fll = []string{}
+		o.Tie = []int{}
 		var r res
 		switch {
 		case o.Op == "proc":
